@@ -7,7 +7,9 @@
   (Influx.Generated.Codec).  Every theorem is for ALL lists (no length bound other than
   "a slice length fits in 64 bits" where a length is written as a varint).
 -/
-import Influx.Lemmas.CodecS8b
+import Influx.Lemmas.CodecTime
+import Influx.Lemmas.CodecFloat
+import Influx.Lemmas.CodecBlock
 import Influx.Model.CodecRun
 
 namespace Influx.Props.C07
@@ -61,13 +63,108 @@ theorem simple8b_reject_iff (vs : List Nat) : encodeAllI vs.length vs = none ↔
     rw [e] at hn; simp at hn
   · exact encodeAllI_reject vs
 
+/-! ## The value codecs -/
+
+/-- a compressor that gives back what it was given (snappy enters only through this hypothesis) -/
+def Lossless (c : Compressor) : Prop := ∀ x, c.decompress (c.compress x) = some x
+
+/-- machine-representable values: 64-bit words, slice lengths that fit in 64 bits -/
+def ValsWF : Vals → Prop
+  | .f l | .i l | .u l => (∀ v ∈ l, v < W) ∧ l.length < W
+  | .b l => l.length < W
+  | .s l => ∀ s ∈ l, s.length < W
+
+/-- no float is a NaN (the codec's sentinel; NaNs are rejected — the recorded finding) -/
+def NoNaN : Vals → Prop
+  | .f l => ∀ v ∈ l, isNaN v = false
+  | _ => True
+
+/-- **integer / unsigned codec**: both encoders accept every sequence; the decoder returns it. -/
+theorem integer_roundtrip (vs : List Nat) (hv : ∀ v ∈ vs, v < W) (hlen : vs.length < W) :
+    (∃ b, intEncodeS vs = some b ∧ intDecode b = some vs) ∧ (∃ b, intEncodeB vs = some b ∧ intDecode b = some vs) :=
+  ⟨intEncodeS_roundtrip vs hv hlen, intEncodeB_roundtrip vs hv hlen⟩
+
+/-- **timestamp codec** (delta, power-of-ten divisor, RLE / simple8b / raw): both encoders, any order of
+    timestamps, wrap-around included. -/
+theorem timestamp_roundtrip (ts : List Nat) (hv : ∀ v ∈ ts, v < W) (hlen : ts.length < W) :
+    (∃ b, timeEncodeS ts = some b ∧ timeDecode b = some ts) ∧ (∃ b, timeEncodeB ts = some b ∧ timeDecode b = some ts) :=
+  ⟨timeEncodeS_roundtrip ts hv hlen, timeEncodeB_roundtrip ts hv hlen⟩
+
+/-- **boolean codec**: scalar and batch encoders. -/
+theorem boolean_roundtrip (vs : List Bool) (hlen : vs.length < W) :
+    boolDecode (boolEncodeS vs) = some vs ∧ boolDecode (boolEncode vs) = some vs :=
+  ⟨boolDecode_boolEncodeS vs hlen, boolDecode_boolEncode vs hlen⟩
+
+/-- **float codec** (Gorilla XOR): bit-identical for every non-NaN pattern (±0, subnormals, ±Inf, …). -/
+theorem float_roundtrip (vs : List Nat) (hv : ∀ v ∈ vs, v < W) (hn : ∀ v ∈ vs, isNaN v = false) :
+    ∃ b, floatEncode vs = some b ∧ floatDecode b = some vs := floatDecode_floatEncode vs hv hn
+
+/-- a NaN anywhere makes the encoders refuse the sequence (so the full statement fails on NaNs). -/
+theorem float_nan_rejected (vs : List Nat) (h : ∃ v ∈ vs, isNaN v = true) : floatEncode vs = none := by
+  unfold floatEncode
+  rw [if_pos (List.any_eq_true.mpr h)]
+
+/-- **string codec** over any lossless compressor. -/
+theorem string_roundtrip (c : Compressor) (hc : Lossless c) (vs : List Codec.Bytes) (hlen : ∀ s ∈ vs, s.length < W) :
+    strDecode c (strEncode c vs) = some vs := strDecode_strEncode c hc vs hlen
+
+/-- every field type, scalar and batch value encoders -/
+theorem vals_roundtrip (c : Compressor) (hc : Lossless c) (v : Vals) (hwf : ValsWF v) (hn : NoNaN v) :
+    (∃ b, valsEncodeS c v = some b ∧ valsDecode c v b = some v) ∧
+    (∃ b, valsEncodeB c v = some b ∧ valsDecode c v b = some v) := by
+  cases v with
+  | f l =>
+    obtain ⟨b, e1, e2⟩ := float_roundtrip l hwf.1 hn
+    exact ⟨⟨b, e1, by simp [valsDecode, e2]⟩, ⟨b, e1, by simp [valsDecode, e2]⟩⟩
+  | i l =>
+    obtain ⟨⟨a, a1, a2⟩, ⟨b, b1, b2⟩⟩ := integer_roundtrip l hwf.1 hwf.2
+    exact ⟨⟨a, a1, by simp [valsDecode, a2]⟩, ⟨b, b1, by simp [valsDecode, b2]⟩⟩
+  | u l =>
+    obtain ⟨⟨a, a1, a2⟩, ⟨b, b1, b2⟩⟩ := integer_roundtrip l hwf.1 hwf.2
+    exact ⟨⟨a, a1, by simp [valsDecode, a2]⟩, ⟨b, b1, by simp [valsDecode, b2]⟩⟩
+  | b l =>
+    obtain ⟨a1, a2⟩ := boolean_roundtrip l hwf
+    exact ⟨⟨_, rfl, by simp [valsDecode, a1]⟩, ⟨_, rfl, by simp [valsDecode, a2]⟩⟩
+  | s l =>
+    have := string_roundtrip c hc l hwf
+    exact ⟨⟨_, rfl, by simp [valsDecode, this]⟩, ⟨_, rfl, by simp [valsDecode, this]⟩⟩
+
+/-! ## Blocks -/
+
+/-- framing: type byte, uvarint length of the timestamp section, both sections -/
+theorem blockDecode_packBlock (c : Compressor) (v : Vals) (ts : List Nat) (tb vb : Codec.Bytes) (htb : tb.length < W)
+    (ht : timeDecode tb = some ts) (hvd : valsDecode c v vb = some v) :
+    decBlock c v (packBlock v.blockType tb vb) = some (ts, v) := by
+  unfold decBlock packBlock
+  simp only [List.isEmpty_cons, Bool.false_eq_true, if_false, blockDecode, ne_eq, not_true_eq_false]
+  rw [unpackBlock_pack tb vb htb]
+  simp only [ht, hvd]
+
+/-- **block round trip**, both block encoders, for a non-empty sequence of points -/
+theorem block_roundtrip (c : Compressor) (hc : Lossless c) (ts : List Nat) (v : Vals)
+    (hts : ∀ t ∈ ts, t < W) (hlen : ts.length < W) (hne : ts ≠ []) (hwf : ValsWF v) (hn : NoNaN v)
+    (hsz : ∀ tb, (timeEncodeS ts = some tb ∨ timeEncodeB ts = some tb) → tb.length < W) :
+    (∃ b, blockEncodeS c ts v = some b ∧ decBlock c v b = some (ts, v)) ∧
+    (∃ b, blockEncodeB c ts v = some b ∧ decBlock c v b = some (ts, v)) := by
+  obtain ⟨⟨ta, ta1, ta2⟩, ⟨tb, tb1, tb2⟩⟩ := timestamp_roundtrip ts hts hlen
+  obtain ⟨⟨va, va1, va2⟩, ⟨vb, vb1, vb2⟩⟩ := vals_roundtrip c hc v hwf hn
+  have he : ts.isEmpty = false := by cases ts with | nil => exact absurd rfl hne | cons _ _ => rfl
+  constructor
+  · refine ⟨packBlock v.blockType ta va, ?_, blockDecode_packBlock c v ts ta va (hsz ta (Or.inl ta1)) ta2 va2⟩
+    simp [blockEncodeS, he, ta1, va1]
+  · refine ⟨packBlock v.blockType tb vb, ?_, blockDecode_packBlock c v ts tb vb (hsz tb (Or.inr tb1)) tb2 vb2⟩
+    simp [blockEncodeB, he, tb1, vb1]
+
 /-! ## The statement checker on the model -/
 
-/-- the part of the vocabulary whose model answer is PROVED to satisfy the statement -/
-def Proved : Op → Bool
-  | .zz x => decide (x < W)
-  | .s8b _ => true
-  | _ => false
+/-- inputs that exist on a 64-bit machine, without NaN floats -/
+def WellFormed : Op → Prop
+  | .zz x => x < W
+  | .s8b _ => True
+  | .codec v => ValsWF v ∧ NoNaN v
+  | .time ts => (∀ t ∈ ts, t < W) ∧ ts.length < W
+  | .block ts v => (∀ t ∈ ts, t < W) ∧ ts.length < W ∧ ValsWF v ∧ NoNaN v ∧
+      ∀ tb, (timeEncodeS ts = some tb ∨ timeEncodeB ts = some tb) → tb.length < W
 
 theorem holdsOn_zz (c : Compressor) (x : Nat) (h : x < W) : holdsOn (.zz x) (run c (.zz x)) = true := by
   simp [holdsOn, run, Influx.Codec.zigzag_roundtrip x h]
@@ -91,16 +188,59 @@ theorem holdsOn_s8b (c : Compressor) (vs : List Nat) : holdsOn (.s8b vs) (run c 
     obtain ⟨⟨a, a1, a2⟩, ⟨b, b1, b2⟩, ⟨d, d1, d2⟩⟩ := simple8b_accept vs hall
     simp [a1, b1, d1, a2, b2, d2]
 
-/-- **C07 (partial)**: on the proved part of the vocabulary the statement holds of the model's answer.
-    Missing (compared by correspondence only, so far): value codecs, timestamps, blocks. -/
-theorem C07_holdsOn_partial (c : Compressor) (op : Op) (h : Proved op = true) : holdsOn op (run c op) = true := by
-  cases op with
-  | zz x => exact holdsOn_zz c x (by simpa [Proved] using h)
-  | s8b vs => exact holdsOn_s8b c vs
-  | codec v => simp [Proved] at h
-  | time ts => simp [Proved] at h
-  | block ts v => simp [Proved] at h
+theorem roundTrips_rtOf {α : Type} [DecidableEq α] (x : α) (encS encB : Option Codec.Bytes) (dec : Codec.Bytes → Option α)
+    (a b : Codec.Bytes) (ha : encS = some a) (hb : encB = some b) (da : dec a = some x) (db : dec b = some x) :
+    roundTrips x (rtOf encS encB dec) = true := by
+  subst ha; subst hb
+  simp [roundTrips, rtOf, da, db]
 
-example : Proved (.s8b [1, 2, 3, 1152921504606846975]) = true := rfl
+/-- **C07 (partial)**: for every well-formed operation without NaN floats, and any lossless compressor,
+    the statement holds of what the model of the codecs answers.  The hypothesis excludes exactly the
+    recorded finding (NaN is not encodable, `C07_full_fails`); everything else in `WellFormed` says that
+    values are 64-bit words and byte-section lengths fit in a uvarint. -/
+theorem C07_holdsOn_partial (c : Compressor) (hc : Lossless c) (op : Op) (h : WellFormed op) :
+    holdsOn op (run c op) = true := by
+  cases op with
+  | zz x => exact holdsOn_zz c x h
+  | s8b vs => exact holdsOn_s8b c vs
+  | codec v =>
+    obtain ⟨⟨a, a1, a2⟩, ⟨b, b1, b2⟩⟩ := vals_roundtrip c hc v h.1 h.2
+    simp only [holdsOn, run]
+    exact roundTrips_rtOf v _ _ _ a b a1 b1 a2 b2
+  | time ts =>
+    obtain ⟨⟨a, a1, a2⟩, ⟨b, b1, b2⟩⟩ := timestamp_roundtrip ts h.1 h.2
+    simp only [holdsOn, run]
+    exact roundTrips_rtOf ts _ _ _ a b a1 b1 a2 b2
+  | block ts v =>
+    obtain ⟨hts, hlen, hwf, hn, hsz⟩ := h
+    simp only [holdsOn, run]
+    split
+    · rfl
+    · split
+      · next he =>
+        have : ts = [] := by simpa using he
+        subst this
+        simp [blockEncodeS, blockEncodeB, rtOf]
+      · next hl he =>
+        have hne : ts ≠ [] := by intro h0; subst h0; simp at he
+        obtain ⟨⟨a, a1, a2⟩, ⟨b, b1, b2⟩⟩ := block_roundtrip c hc ts v hts hlen hne hwf hn hsz
+        have hr := roundTrips_rtOf (ts, v) _ _ (decBlock c v) a b a1 b1 a2 b2
+        simp only [Bool.and_eq_true, hr, true_and]
+        simp [rtOf, a1, b1, a2, b2]
+
+/-- **the full statement fails**: a sequence containing the NaN `0x7FF8000000000001` is well formed in
+    every other respect, and no encoder accepts it. -/
+theorem C07_full_fails (c : Compressor) :
+    holdsOn (.codec (.f [4607182418800017408, 9221120237041090561])) (run c (.codec (.f [4607182418800017408, 9221120237041090561]))) = false := by
+  have h : floatEncode [4607182418800017408, 9221120237041090561] = none :=
+    float_nan_rejected _ ⟨9221120237041090561, by simp, by decide⟩
+  simp [holdsOn, run, rtOf, roundTrips, valsEncodeS, valsEncodeB, h]
+
+-- the hypotheses are met by non-trivial values
+example : WellFormed (.s8b [1, 2, 3, 1152921504606846975]) := trivial
+example : WellFormed (.codec (.f [4607182418800017408, 9218868437227405312, 18442240474082181120])) :=
+  ⟨⟨by decide, by decide⟩, by intro v hv; simp at hv; rcases hv with rfl | rfl | rfl <;> decide⟩
+example : WellFormed (.time [1000, 2000, 3001]) := ⟨by decide, by decide⟩
+example : Lossless { compress := id, decompress := some } := fun _ => rfl
 
 end Influx.Props.C07
